@@ -101,14 +101,17 @@ struct Str { char c[MAXL + 1]; };
 // It contains the empty string, proper prefixes of other names and a byte >= 0x80 (the hash sign-extends chars).
 #if MAXL >= 6
 #define NPOOL 12
-static const char* const pool[NPOOL] = { "", "b", "aa", "abc", "aaaa", "e", "\xff", "a", "abcdef", "zzzz", "a\x80", "abcde" };
+static const char* const pool[NPOOL] = { "", "b", "aa", "a", "abc", "aaaa", "e", "\xff", "abcdef", "zzzz", "a\x80", "abcde" };
 #else
 #define NPOOL 8
-static const char* const pool[NPOOL] = { "", "b", "aa", "abc", "aaaa", "e", "\xff", "a" };
+static const char* const pool[NPOOL] = { "", "b", "aa", "a", "abc", "aaaa", "e", "\xff" };
 #endif
-static void draw(Str& s)
+#ifndef HPOOL
+#define HPOOL 4       // the multi-step obligations (history, self-composition) draw from the first HPOOL pool entries only:
+#endif                // "", "b", "aa" share home slot 1 and "a" (slot 0) is the next slot on their probe path
+static void draw(Str& s, int npool = NPOOL)
 {
-   int which = vp_int_in(0, NPOOL - 1);
+   int which = vp_int_in(0, npool - 1);
    for(int j = 0; j <= MAXL; ++j) s.c[j] = '\0';
    for(int i = 0; i < NPOOL; ++i) if(i == which) { for(int j = 0; j <= MAXL && pool[i][j] != '\0'; ++j) s.c[j] = pool[i][j]; }
 }
@@ -156,7 +159,8 @@ static void ref_remove(Ref& r, int i)   // DataSet (documented): the last elemen
    --r.n;
 }
 // add through the real NameSet::add(key, str) and through the model; returns whether the name was new
-static bool add_both(NameSet& ns, Ref& r, const Str& s, int id)
+// (assert ids are literals: the solver build takes them from the call site)
+static bool add_both(NameSet& ns, Ref& r, const Str& s)
 {
    int at = find(r, s);
    DataKey k;
@@ -164,97 +168,78 @@ static bool add_both(NameSet& ns, Ref& r, const Str& s, int id)
    ns.add(k, s.c);
    if(at >= 0)
    {
-      vp_assert(ns.num() == num0, id);                                  // nameset.cpp: a name that is present is not added again
+      vp_assert(ns.num() == num0, 41);                                  // nameset.cpp: a name that is present is not added again
       return false;
    }
-   vp_assert(ns.num() == num0 + 1, id);
-   vp_assert(k.isValid() && ns.has(k) && ns.number(k) == num0, id + 1);   // fresh key, number num()-1
-   for(int i = 0; i < CAP; ++i) if(i < r.n) vp_assert(r.kidx[i] != k.idx, id + 2);
+   vp_assert(ns.num() == num0 + 1, 42);
+   vp_assert(k.isValid() && ns.has(k) && ns.number(k) == num0, 43);   // fresh key, number num()-1
+   for(int i = 0; i < CAP; ++i) if(i < r.n) vp_assert(r.kidx[i] != k.idx, 44);
    ref_append(r, s, k.idx);
    return true;
 }
 // queries by number and by key on all registered names (no hashing involved: cheap)
-static void check_all(const NameSet& ns, const Ref& r, int id)
+static void check_all(const NameSet& ns, const Ref& r)
 {
-   vp_assert(ns.num() == r.n, id);
-   vp_assert(ns.max() == NMAX && ns.memMax() == MEMMAX, id);           // no relocation happened
-   vp_assert(!ns.has(r.n) && !ns.has(-1), id);
+   vp_assert(ns.num() == r.n, 51);
+   vp_assert(ns.max() == NMAX && ns.memMax() == MEMMAX, 52);           // no relocation happened
+   vp_assert(!ns.has(r.n) && !ns.has(-1), 53);
    for(int i = 0; i < CAP; ++i) if(i < r.n)
    {
       DataKey k = ns.key(i);
-      vp_assert(ns.has(i) && k.idx == r.kidx[i] && ns.has(k) && ns.number(k) == i, id + 1);
-      vp_assert(same(ns[i], r.name[i]) && same(ns[k], r.name[i]), id + 2);
+      vp_assert(ns.has(i) && k.idx == r.kidx[i] && ns.has(k) && ns.number(k) == i, 54);
+      vp_assert(same(ns[i], r.name[i]) && same(ns[k], r.name[i]), 55);
    }
 }
 // queries by name for an ARBITRARY string q (it may or may not be one of the registered names, so this covers "every
 // registered name is found under its number" as well as "absent/removed names are not found")
-static void check_probe(const NameSet& ns, const Ref& r, const Str& q, int id, bool full = true)
+static void check_probe(const NameSet& ns, const Ref& r, const Str& q, bool full = true)
 {
    int at = find(r, q);
-   vp_assert(ns.number(q.c) == at, id + 1);                             // -1 for absent names (number() itself calls has())
+   vp_assert(ns.number(q.c) == at, 61);                             // -1 for absent names (number() itself calls has())
    if(full)
    {
       DataKey k = ns.key(q.c);
       int kx = -1;
       for(int i = 0; i < CAP; ++i) if(i == at) kx = r.kidx[i];
-      vp_assert(k.idx == kx, id + 2);                                   // documented: invalid DataKey() (idx -1) for absent names
+      vp_assert(k.idx == kx, 62);                                   // documented: invalid DataKey() (idx -1) for absent names
    }
 }
 static void build(NameSet& ns, Ref& r, int nb)
 {
    r.n = 0;
-   for(int i = 0; i < nb; ++i) { Str s; draw(s); add_both(ns, r, s, 90); }
+   for(int i = 0; i < nb; ++i) { Str s; draw(s); add_both(ns, r, s); }
 }
 
 // ---- bounded history from the constructor -------------------------------------------------------------------------------
-// After every operation: all by-number/by-key queries on every entry, and number()/has()/key() for a fresh arbitrary string.
+// HIST symbolic operations add(key,name) / remove(name) / remove(num) (remove(key) and add(name) are one-line wrappers of these,
+// exercised by the single-operation obligations). Absent names / duplicate adds make an operation a no-op, so histories shorter
+// than HIST are included and the final check covers every intermediate state of a shorter history.
 extern "C" void h_ns_history()
 {
    NameSet ns(NMAX, MEMMAX);
    Ref r; r.n = 0;
-   int adds = 0;
    for(int step = 0; step < HIST; ++step)
    {
-      int op = vp_int_in(0, 4);
-      Str s; draw(s);
-      if(op == 0 && adds < CAP) { add_both(ns, r, s, 1); ++adds; }
-      else if(op == 1 && adds < CAP)
-      {  // add(str) without key
-         int at = find(r, s);
-         ns.add(s.c);
-         ++adds;
-         if(at < 0)
-         {
-            vp_assert(ns.num() == r.n + 1, 4);
-            int kx = ns.key(r.n).idx;
-            for(int i = 0; i < CAP; ++i) if(i < r.n) vp_assert(r.kidx[i] != kx, 5);
-            ref_append(r, s, kx);
-         }
-      }
-      else if(op == 2)
+      int op = vp_int_in(0, 2);
+      Str s; draw(s, HPOOL);
+      if(op == 0) add_both(ns, r, s);
+      else if(op == 1)
       {  // remove(str): absent names are ignored
          int at = find(r, s);
          ns.remove(s.c);
          if(at >= 0) ref_remove(r, at);
       }
-      else if(op == 3 && r.n > 0)
+      else if(r.n > 0)
       {
          int i = vp_int_in(0, CAP - 1); vp_assume(i < r.n);
          ns.remove(i);
          ref_remove(r, i);
       }
-      else if(op == 4 && r.n > 0)
-      {
-         int i = vp_int_in(0, CAP - 1); vp_assume(i < r.n);
-         Str t; int kx; ref_get(r, i, t, kx);
-         DataKey k; k.idx = kx; k.info = 0;
-         ns.remove(k);
-         ref_remove(r, i);
-      }
-      check_all(ns, r, 10);
-      Str q; draw(q);
-      check_probe(ns, r, q, 20, false);
+      vp_assert(ns.num() == r.n, 5);
    }
+   check_all(ns, r);
+   Str q; draw(q, HPOOL);
+   check_probe(ns, r, q, false);
    vp_cover(1);
 }
 
@@ -262,9 +247,9 @@ extern "C" void h_ns_history()
 extern "C" void h_ns_lookup()
 {
    NameSet ns(NMAX, MEMMAX); Ref r; build(ns, r, NB);
-   check_all(ns, r, 10);
+   check_all(ns, r);
    Str q; draw(q);
-   check_probe(ns, r, q, 20);
+   check_probe(ns, r, q);
    vp_assert(ns.has(q.c) == (find(r, q) >= 0), 30);
    vp_cover(1);
 }
@@ -275,9 +260,9 @@ extern "C" void h_ns_remove_name()
    int at = find(r, q);
    ns.remove(q.c);
    if(at >= 0) ref_remove(r, at);
-   check_all(ns, r, 10);
+   check_all(ns, r);
    Str p; draw(p);
-   check_probe(ns, r, p, 20, false);             // arbitrary name: the removed one is gone, all others are still found
+   check_probe(ns, r, p, false);             // arbitrary name: the removed one is gone, all others are still found
    vp_cover(1);
 }
 // a removed name can be registered again: it gets a fresh key and the last number
@@ -288,37 +273,37 @@ extern "C" void h_ns_readd()
    vp_assume(find(r, q) >= 0);
    ns.remove(q.c);
    ref_remove(r, find(r, q));
-   add_both(ns, r, q, 40);
-   check_all(ns, r, 50);
+   add_both(ns, r, q);
+   check_all(ns, r);
    vp_assert(ns.number(q.c) == r.n - 1, 60);
    vp_cover(1);
 }
 // the list removals; afterwards (arbitrary string p): found iff it is a survivor, under a number j that holds its text and its
 // original key; numbers are dense; removed keys are invalid
-static void check_survivors(const NameSet& ns, const Ref& r0, const int* del, const Str& p, int id)
+static void check_survivors(const NameSet& ns, const Ref& r0, const int* del, const Str& p)
 {
    int left = 0;
    for(int i = 0; i < CAP; ++i) if(i < r0.n && !del[i]) ++left;
-   vp_assert(ns.num() == left, id);
+   vp_assert(ns.num() == left, 71);
    int at = find(r0, p);
    int gone = 1; int kx = -1;
    for(int i = 0; i < CAP; ++i) if(i == at) { gone = del[i]; kx = r0.kidx[i]; }
    int j = ns.number(p.c);
-   if(at < 0 || gone) vp_assert(j == -1, id + 1);
+   if(at < 0 || gone) vp_assert(j == -1, 72);
    else
    {
-      vp_assert(0 <= j && j < left, id + 2);
-      vp_assert(ns.key(j).idx == kx && same(ns[j], p), id + 3);
+      vp_assert(0 <= j && j < left, 73);
+      vp_assert(ns.key(j).idx == kx && same(ns[j], p), 74);
    }
    for(int i = 0; i < CAP; ++i) if(i < r0.n)
    {
       DataKey k; k.idx = r0.kidx[i]; k.info = 0;
-      if(del[i]) vp_assert(!ns.has(k), id + 4);
+      if(del[i]) vp_assert(!ns.has(k), 75);
       else
       {
-         vp_assert(ns.has(k), id + 5);
+         vp_assert(ns.has(k), 76);
          int jj = ns.number(k);
-         vp_assert(0 <= jj && jj < left && ns.key(jj).idx == k.idx && same(ns[jj], r0.name[i]) && same(ns[k], r0.name[i]), id + 6);
+         vp_assert(0 <= jj && jj < left && ns.key(jj).idx == k.idx && same(ns[jj], r0.name[i]) && same(ns[k], r0.name[i]), 77);
       }
    }
 }
@@ -329,7 +314,7 @@ extern "C" void h_ns_remove_dstat()
    for(int i = 0; i < CAP; ++i) { del[i] = vp_int_in(0, 1); dstat[i] = del[i] ? -1 : vp_int_in(0, 1000); }
    ns.remove(dstat);
    Str p; draw(p);
-   check_survivors(ns, r, del, p, 1);
+   check_survivors(ns, r, del, p);
    // DataSet::remove(perm) (documented): perm[i] is the new number of survivor i, order preserved
    int prev = -1;
    for(int i = 0; i < CAP; ++i) if(i < r.n)
@@ -350,7 +335,7 @@ extern "C" void h_ns_remove_nums()
    for(int i = 0; i < CAP; ++i) del[i] = (n >= 1 && nums[0] == i) || (n >= 2 && nums[1] == i);
    ns.remove(nums, n);
    Str p; draw(p);
-   check_survivors(ns, r, del, p, 1);
+   check_survivors(ns, r, del, p);
    vp_cover(1);
 }
 extern "C" void h_ns_remove_keys()
@@ -368,7 +353,7 @@ extern "C" void h_ns_remove_keys()
    }
    ns.remove(keys, n);
    Str p; draw(p);
-   check_survivors(ns, r, del, p, 1);
+   check_survivors(ns, r, del, p);
    vp_cover(1);
 }
 extern "C" void h_ns_clear()
@@ -378,11 +363,13 @@ extern "C" void h_ns_clear()
    vp_assert(ns.num() == 0 && ns.memSize() == 0 && ns.size() == 0, 1);
    r.n = 0;
    Str p; draw(p);
-   check_probe(ns, r, p, 20);        // nothing is found any more
+   check_probe(ns, r, p);        // nothing is found any more
    Str q; draw(q);
-   add_both(ns, r, q, 40);           // usable again: first name gets number 0
-   check_all(ns, r, 50);
-   check_probe(ns, r, p, 60, false);
+   ns.add(q.c);                      // usable again (add without key): first name gets number 0 and a valid key
+   vp_assert(ns.num() == 1 && ns.key(0).isValid(), 40);
+   ref_append(r, q, ns.key(0).idx);
+   check_all(ns, r);
+   check_probe(ns, r, p, false);
    vp_cover(1);
 }
 // memPack(): garbage collection of the string memory after a removal keeps all names, keys and numbers
@@ -400,11 +387,11 @@ extern "C" void h_ns_mempack()
    int need = 0;
    for(int i = 0; i < CAP; ++i) if(i < r.n) need += slen(r.name[i]) + 1;
    vp_assert(ns.memSize() == need, 2);            // exactly the bytes of the remaining names
-   check_all(ns, r, 10);
+   check_all(ns, r);
    Str q; draw(q);
-   check_probe(ns, r, q, 20);
-   add_both(ns, r, q, 40);
-   check_all(ns, r, 50);
+   check_probe(ns, r, q);
+   add_both(ns, r, q);
+   check_all(ns, r);
    vp_cover(1);
 }
 // add() running out of string memory: with MEMSMALL = 11 bytes two names always fit, a third one fits only after the hole left
@@ -458,9 +445,9 @@ extern "C" void h_ns_add_set()
       ref_append(r, o.name[i], kx);
    }
    for(int i = 0; i < CAP; ++i) if(i < n0) for(int j = 0; j < CAP; ++j) if(n0 <= j && j < r.n) vp_assert(r.kidx[i] != r.kidx[j], 2);
-   check_all(ns, r, 10);
+   check_all(ns, r);
    Str q; draw(q);
-   check_probe(ns, r, q, 20, false);
+   check_probe(ns, r, q, false);
    vp_assert(other.num() == o.n, 3);             // the source set is unchanged
    for(int i = 0; i < NB2; ++i) if(i < o.n) vp_assert(same(other[i], o.name[i]) && other.key(i).idx == o.kidx[i], 4);
    vp_cover(1);
@@ -474,41 +461,37 @@ extern "C" void h_ns_selfcomp()
 {
    NameSet a(NMAX, MEMMAX);
    NameSet b(NMAX, MEMMAX);
-   int adds = 0;
    for(int step = 0; step < HIST2; ++step)
    {
-      int op = vp_int_in(0, 3);
-      Str s; draw(s);
-      if(op == 0 && adds < CAP)
+      int op = vp_int_in(0, 2);
+      Str s; draw(s, HPOOL);
+      if(op == 0)
       {
          DataKey ka; DataKey kb;
-         a.add(ka, s.c); b.add(kb, s.c); ++adds;
+         a.add(ka, s.c); b.add(kb, s.c);
          vp_assert(ka.idx == kb.idx && ka.info == kb.info, 1);
       }
       else if(op == 1) { a.remove(s.c); b.remove(s.c); }
-      else if(op == 2)
+      else
       {
          int i = vp_int_in(0, CAP - 1);
          if(a.has(i)) a.remove(i);
          if(b.has(i)) b.remove(i);
       }
-      else if(op == 3)
+      vp_assert(a.num() == b.num() && a.size() == b.size() && a.memSize() == b.memSize(), 2);
+   }
+   vp_assert(a.max() == b.max() && a.memMax() == b.memMax(), 2);
+   Str q; draw(q, HPOOL);
+   int na = a.number(q.c);
+   int nb = b.number(q.c);
+   vp_assert(na == nb, 3);
+   for(int i = 0; i < CAP; ++i)
+   {
+      vp_assert(a.has(i) == b.has(i), 5);
+      if(a.has(i) && b.has(i))
       {
-         DataKey k; k.idx = vp_int_in(0, CAP - 1); k.info = 0;
-         if(a.has(k)) a.remove(k);
-         if(b.has(k)) b.remove(k);
-      }
-      vp_assert(a.num() == b.num() && a.size() == b.size() && a.memSize() == b.memSize() && a.max() == b.max() && a.memMax() == b.memMax(), 2);
-      Str q; draw(q);
-      vp_assert(a.number(q.c) == b.number(q.c), 3);
-      for(int i = 0; i < CAP; ++i)
-      {
-         vp_assert(a.has(i) == b.has(i), 5);
-         if(a.has(i) && b.has(i))
-         {
-            vp_assert(a.key(i).idx == b.key(i).idx && a.key(i).info == b.key(i).info, 6);
-            vp_assert(strcmp(a[i], b[i]) == 0, 7);
-         }
+         vp_assert(a.key(i).idx == b.key(i).idx && a.key(i).info == b.key(i).info, 6);
+         vp_assert(strcmp(a[i], b[i]) == 0, 7);
       }
    }
    vp_cover(1);
